@@ -33,7 +33,7 @@ def floors(tier):
     return {"ruler.ops": 2000000 if q else 50000000, "ruler.raising_mutator_warm": 10000, "ruler.warm_mutations": 50000, "ruler.chains_compared": 1000000,
             "op.enable.raise": 1000, "op.disable.raise": 1000, "op.enableOnly.raise": 1000, "op.at.raise": 500, "op.before.raise": 500, "op.after.raise": 500,
             "ruler.duplicate_name_ops": 5000, "facade.histories": 30000 if q else 600000, "facade.rules_observed": 50000, "facade.raising_ops": 500,
-            "facade.reset_rules_exits": 500, "facade.plugin_rules": 500, "facade.model_checks": 100000, "facade.validation_mode_probes": 3000, "terminator.cases": 700}
+            "facade.reset_rules_exits": 500, "facade.plugin_rules": 500, "facade.model_checks": 100000, "facade.validation_mode_probes": 3000, "terminator.cases": 700, "facade.component_swaps": 500}
 
 
 # ---- (1) sequential model -------------------------------------------------------------------------------------
@@ -298,6 +298,13 @@ def preset_model(preset):
     return model
 
 
+def _fresh_model():
+    from markdown_it import parser_block, parser_core, parser_inline
+    reg = {"core": [r[0] for r in parser_core._rules], "block": [r[0] for r in parser_block._rules], "inline": [r[0] for r in parser_inline._rules],
+           "inline2": [r[0] for r in parser_inline._rules2]}
+    return {ch: [[n, True] for n in names] for ch, names in reg.items()}
+
+
 def apply_preset(model, preset):
     from markdown_it import presets
     mod = {"commonmark": presets.commonmark, "js-default": presets.js_default, "default": presets.default, "zero": presets.zero, "gfm-like": presets.gfm_like}[preset]
@@ -353,6 +360,23 @@ def run_facade_history(ctx, hist, record=True):
             elif kind == "parse":
                 md.parse("x *y*\n\n> z\n")
                 warm = True
+            elif kind == "swap":
+                # the application installs a fresh parser component in the public attribute (e.g. to start from all rules again, or
+                # a subclass): the facade must manage and report the rules of the component that parses
+                from markdown_it.parser_block import ParserBlock
+                from markdown_it.parser_core import ParserCore
+                from markdown_it.parser_inline import ParserInline
+                ch = op["chain"]
+                setattr(md, ch, {"block": ParserBlock, "inline": ParserInline, "core": ParserCore}[ch]())
+                fresh = preset_model.__globals__["_fresh_model"]()
+                for c2 in ([ch, "inline2"] if ch == "inline" else [ch]):
+                    model[c2] = fresh[c2]
+                    for code, (cc, nm) in list(extra.items()):
+                        if cc == c2:
+                            del extra[code]
+                    hist["_replaced"] = [x for x in hist.get("_replaced", []) if x[0] != c2]
+                if record:
+                    ctx.count("facade.component_swaps")
             elif kind == "reset_enter":
                 cm = md.reset_rules()
                 cm.__enter__()
@@ -484,8 +508,11 @@ def gen_facade_history(rng):
             names = rng.sample(allnames, k)
             arg = names[0] if k == 1 and rng.random() < 0.5 else names
             hist["ops"].append({"op": rng.choice(["enable", "disable"]), "names": arg, "ign": rng.random() < 0.4})
-        elif r < 0.6:
+        elif r < 0.58:
             hist["ops"].append({"op": "parse"})
+        elif r < 0.6 and not open_resets:
+            # (not inside a reset_rules block: its exit would re-enable rules by name that the fresh component does not have)
+            hist["ops"].append({"op": "swap", "chain": rng.choice(["block", "inline", "core"])})
         elif r < 0.68:
             hist["ops"].append({"op": "configure", "preset": rng.choice(["commonmark", "js-default", "zero", "gfm-like"])})
         elif r < 0.78:
